@@ -332,6 +332,30 @@ def run(ctx):
     sub = Report("C12", "R-GROUPFILL", "require groups only receive LocalAssignment statements")
     for cfg, prog in ctx.programs.items():
         r_exh._groupfill(prog, sub, cfg)
-    return [rule_pairs(ctx, "C12"), rule_sort(ctx, "C12"), rule_group(ctx, "C12"), r_skip.rule_toggle(ctx, "C12"), r_skip.rule_sort_guard(ctx, "C12"), r_skip.rule_node_type(ctx, "C12"), sub, r_arms.rule_arms(ctx, "C12", only=r"^sort_requires::"), r_skip.rule_sort_emit(ctx, "C12")]
+    return [rule_pairs(ctx, "C12"), rule_sort(ctx, "C12"), rule_group(ctx, "C12"), r_skip.rule_toggle(ctx, "C12"), r_skip.rule_sort_guard(ctx, "C12"), r_skip.rule_node_type(ctx, "C12"), sub, r_arms.rule_arms(ctx, "C12", only=r"^sort_requires::"), r_skip.rule_sort_emit(ctx, "C12"), rule_group_total(ctx, "C12")]
 
 
+def rule_group_total(ctx, prop):
+    """the rebuilt block is made of the partitions: a statement that lands in none of them is deleted from the file"""
+    rep = Report(prop, "R-GROUP(total)", "in partition_nodes_into_groups the loop over the block's statements cannot return to its head without "
+                                         "a push: every statement is put into a require group or into an Other partition")
+    for cfg, prog in ctx.programs.items():
+        f = prog.fn("stylua_lib", "sort_requires::partition_nodes_into_groups")
+        if not rep.anchor(f is not None, "sort_requires::partition_nodes_into_groups", cfg):
+            continue
+        pushes = {b for b, t in f.calls() if re.search(r"Vec::<.*>::push$|Vec<.*>::push$|Vec::<.*>::(extend|append|insert)$|Extend<.*>>::extend$", callee(t))}
+        dom = f.dominators()
+        heads = [b for b, t in f.calls() if re.search(r"Iterator>?::next$", callee(t)) and f.blocks[b]["term"].get("t") is not None
+                 and b in f.reach_from(f.blocks[b]["term"]["t"]) and all(b in dom.get(p_, ()) for p_ in pushes)]
+        if not rep.anchor(bool(heads) and bool(pushes), "statement loop and pushes in partition_nodes_into_groups", cfg):
+            continue
+        h = max(heads, key=lambda x: len(dom.get(x, ())))
+        nxt = f.blocks[h]["term"]["t"]
+        skip = h in f.reach_from(nxt, avoid=pushes)
+        rep.inst(f"{f.key} every statement is pushed into a partition", {"pushes": len(pushes)}, cfg, ok=not skip)
+        if skip:
+            rep.violation(f"{f.key} statement-lands-in-no-partition",
+                          "the loop of partition_nodes_into_groups has a path back to its head that pushes the statement nowhere (a "
+                          "`continue` before the fall-through): sort_requires rebuilds the block from the partitions, so that statement - "
+                          "and its comments - disappears from the output", f.loc(), cfg)
+    return rep
